@@ -171,11 +171,25 @@ Section Digest.
 
   (* [hdr]: the header dict that Recipient.add_header updates (the protected
      header in compact serialization, the recipient header in JSON).
-     Returns the ephemeral key in use and the updated header. *)
-  Definition prepare_ephemeral_key (rk : key) (eph : option key) (hdr : kd) : res (key * kd) :=
+     [eph] = recipient.ephemeral_key before the call, [generated] = the
+     recipient's _ephemeral_key_generated mark (a key made by an earlier
+     encryption of the same object is replaced by a fresh one; a caller-provided
+     key is kept).  Returns the ephemeral key in use and the updated header.
+
+       if recipient.ephemeral_key is None or recipient._ephemeral_key_generated:
+           recipient.ephemeral_key = recipient_key.generate_key(curve_name, private=True)
+       recipient.add_header("epk", recipient.ephemeral_key.as_dict(private=False))   *)
+  Definition ephemeral_in_use (rk : key) (eph : option key) (generated : bool) : key :=
+    match eph with
+    | Some e => if generated then gen rk else e
+    | None => gen rk
+    end.
+
+  Definition prepare_ephemeral_key (rk : key) (eph : option key) (generated : bool) (hdr : kd)
+    : res (key * kd) :=
     if negb (key_agreement_type (k_kind rk)) then Err (EJose InvalidKeyTypeError)
     else
-      let e := match eph with Some e => e | None => gen rk end in
+      let e := ephemeral_in_use rk eph generated in
       do v <- key_as_dict e (PBool false) [];
       Ok (e, dset hdr s_epk (PDict v)).
 End Digest.
